@@ -4,7 +4,10 @@ Decided by: llsym execution of quickorient from clang IR of src/cdiffraction.c a
 sqrt context, for a symbolic upper-triangular B, concrete non-collinear hkl pairs and ALL g-vector pairs whose Gram matrix equals that
 of (B.h1, B.h2) - i.e. every rotation of the crystal.  The end-to-end statement (UBI.g1 = h1, UBI.g2 = h2, UBI.UBI^T = metric of the
 cell, det > 0) is discharged through cut-point lemmas (orthonormal triads, components of g2 in the triad) glued by congruence.
-The candidate-list sentence of C05 (filter_pairs / ubi_equiv) is not applicable - see DESIGN.md.
+Candidate selection (second sentence of C05), logic part: the real unitcell.orient is executed on symbolic g-vectors and an arbitrary ascending cosine table
+(which candidates reach quickorient: the nearest cosine / all within crange; with which vectors and BT matrices; what reaches ubi_equiv), and the real ubi_equiv
+on n arbitrary candidate matrices (every dropped candidate is equivalent to a kept one, kept ones are pairwise inequivalent, under the function's own score).
+filter_pairs (floating-point clustering of the cosines of a concrete lattice) is not covered - see DESIGN.md.
 """
 import sys, os
 sys.path.insert(0, os.path.join(os.path.dirname(os.path.abspath(__file__)), "..", "lib"))
@@ -40,12 +43,16 @@ def main():
     args = parse_args("C05"); ck = Check("C05", args.tier); thorough = args.tier == "thorough"
     ir = common.build_ir(["cdiffraction"]); mod = Module(); mod.load(ir["cdiffraction"])
     import ImageD11.unitcell as UC
-    ck.encoded("src/cdiffraction.c:quickorient (clang IR)", "ImageD11/unitcell.py:BTmat, unit, norm2 (pysym)", "ImageD11/unitcell.py:orient_BL (independent reference, thorough)", "ImageD11/unitcell.py:unitcell.getanglehkls (cache wiring from an arbitrary cached state)")
+    ck.encoded("src/cdiffraction.c:quickorient (clang IR)", "ImageD11/unitcell.py:BTmat, unit, norm2 (pysym)", "ImageD11/unitcell.py:orient_BL (independent reference, thorough)", "ImageD11/unitcell.py:unitcell.getanglehkls (cache wiring from an arbitrary cached state)",
+               "ImageD11/unitcell.py:unitcell.orient (pysym; getanglehkls / quickorient / linalg.inv / ubi_equiv as recording stubs)", "ImageD11/unitcell.py:ubi_equiv (pysym, uninterpreted products)")
     pairs = PAIRS if thorough else PAIRS[:5]
     ck.bound("hkl pairs %s (concrete, non-collinear, incl. same-ring pairs); B: every upper-triangular matrix with positive diagonal (= every cell); g1, g2: every pair of real vectors with the Gram matrix of (B.h1, B.h2) (= every crystal orientation)" % (pairs,),
-             "the candidate-list sentence (several hkl pairs with the same angle: filter_pairs / ubi_equiv / getanglehkls) is NOT covered")
+             "candidate selection: unitcell.orient with cosine tables of 1..3 (thorough 4) candidate pairs (nearest-cosine mode) and 1..2 (thorough 3) pairs with a symbolic crange > 0; ubi_equiv with 1..2 (thorough 3) arbitrary candidate matrices",
+             "filter_pairs (which hkl pairs of a concrete lattice share an angle: floating-point clustering of cosines at 1e-8, compiled score / quickorient on concrete data) is NOT covered")
     ck.assume("g1 != 0 and g1 x g2 != 0 (non-collinear reflections: the two divisions of quickorient are by non-zero lengths)", "real-arithmetic model; sqrt(x) = r with r >= 0, r^2 = x shared between the C and the Python side", "BI is constrained by B.BI = I (6 polynomial equations) instead of being computed",
               "the end-to-end identities follow from the lemmas by congruence: UBI = BT.M, M.g1 = (|g1|,0,0), M.g2 = (a,w,0) with the same a, w as the crystal triad gives for B.h2")
+    ck.stub("orient harness: getanglehkls returns an arbitrary strictly ascending cosine table with opaque hkl pairs / BT matrices; cImageD11.quickorient records its arguments and fills UBI with fresh symbols; np.linalg.inv and ubi_equiv record their arguments (ubi_equiv itself is executed in its own harness)",
+            "ubi_equiv harness: products of two symbolic reals are the uninterpreted commutative umul (the claim is about the selection logic for EVERY value of the scores, a superset of the real behaviours); np.linalg.inv(ubi_i) returns the given UB_i (the caller passes ublist[i] = inv(ubilist[i])); rounding = exact round-half-even via ToInt (n <= 2) or a fresh real within 1/2 (n = 3)")
     tmo = 60000 if thorough else 30000
 
     def run_A():
@@ -161,6 +168,100 @@ def main():
                     return True, "unitcell F 4.1: getanglehkls(%d,%d) after getanglehkls(%d,%d) returns hkl pairs %s..., a fresh object returns %s..." % (r1, r2, r2, r1, [np.asarray(x).tolist() for x in got[0][:1]], [np.asarray(x).tolist() for x in want[0][:1]])
         return False, "cache keyed correctly on the real object"
     jobs.append(("getanglehkls-cache", run_cache, dict(replay=replay_cache, timeout_ms=tmo, keyfn=lambda n, l: "unitcell.py:getanglehkls:cache-key")))
+
+    # ------------------------------------------------------------------------------------------ candidate selection (second sentence, logic part)
+    def mk_orient(n, crange_sym):
+        """the real unitcell.orient on symbolic g1, g2 and an arbitrary strictly ascending cosine table of n candidate hkl pairs (getanglehkls, quickorient,
+        linalg.inv and ubi_equiv are recording stubs): WHICH candidates are handed to quickorient, with which vectors / BT matrices, and what reaches ubi_equiv"""
+        def run():
+            g1 = pysym.vec("g1_", 3); g2 = pysym.vec("g2_", 3)
+            c = [z3.Real("c%d" % i) for i in range(n)]
+            for i in range(n - 1): CTX.hyp.append(c[i] < c[i + 1])
+            for x in c: CTX.hyp += [x >= -1, x <= 1]
+            c2ab = np.array([Sym(x) for x in c], dtype=object).view(pysym.SymArray)
+            hab = [(("h1", i), ("h2", i)) for i in range(n)]; matrs = [("BT", i) for i in range(n)]
+            uc = object.__new__(UC.unitcell); uc.getanglehkls = lambda r1, r2: (hab, c2ab, matrs) if (r1, r2) == (3, 5) else None
+            calls = []; invs = []; eq = []
+            class CI:
+                @staticmethod
+                def quickorient(UBI, BT):
+                    calls.append(([T(x) for x in np.asarray(UBI, dtype=object)[:2].ravel()], BT)); k = len(calls)
+                    for i in range(3):
+                        for j in range(3): UBI[i, j] = Sym(z3.Real("ubi%d_%d%d" % (k, i, j)))
+            class LA:
+                def __getattr__(s, k): return getattr(np.linalg, k)
+                def inv(s, m): invs.append(m); return ("inv", len(invs) - 1)
+            class NP2(pysym.NPProxyMaskIdx): linalg = LA()
+            def ue(ubis, ubs): eq.append((list(ubis), list(ubs))); return ("uniq", list(ubis))
+            cr = z3.Real("crange")
+            if crange_sym: CTX.hyp.append(cr > 0)
+            with symbolize(UC, extra=[(UC, "np", NP2()), (UC, "cImageD11", CI), (UC, "ubi_equiv", ue)]):
+                uc.orient(3, g1, 5, g2, crange=Sym(cr) if crange_sym else -1.)
+            G1 = [T(x) for x in g1]; G2 = [T(x) for x in g2]
+            nn = symcore.sqrt_(dot3(G1, G1) * dot3(G2, G2)); cos = dot3(G1, G2) / nn
+            best = [bt[1] for _, bt in calls]
+            goals = []
+            if crange_sym:
+                for j in range(n):
+                    goals.append(("S candidate %d tried  =>  |c_%d - cos| <= crange" % (j, j), z3.Implies(z3.BoolVal(j in best), symcore.zabs(c[j] - cos) <= cr)))
+                    goals.append(("S |c_%d - cos| < crange  =>  candidate %d tried" % (j, j), z3.Implies(symcore.zabs(c[j] - cos) < cr, z3.BoolVal(j in best))))
+                goals.append(("S candidates tried once each, in table order", z3.BoolVal(best == sorted(set(best)))))
+            else:
+                goals.append(("S exactly one candidate tried", z3.BoolVal(len(best) == 1)))
+                if len(best) == 1:
+                    for j in range(n): goals.append(("S chosen candidate is a nearest cosine (vs %d)" % j, symcore.zabs(c[best[0]] - cos) <= symcore.zabs(c[j] - cos)))
+            okw = all(bt == ("BT", b) for (_, bt), b in zip(calls, best))
+            goals.append(("W quickorient gets the BT matrix of the chosen pair", z3.BoolVal(okw)))
+            for k, (rows, _) in enumerate(calls):
+                for i in range(3): goals.append(("W UBI row 0 = g1, row 1 = g2 on entry [call %d, %d]" % (k, i), z3.And(rows[i] == G1[i], rows[3 + i] == G2[i])))
+            wired = len(eq) == 1 and len(eq[0][0]) == len(calls) and len(invs) == len(calls) and all(eq[0][0][k] is invs[k] for k in range(len(calls))) \
+                and eq[0][1] == [("inv", k) for k in range(len(calls))] and uc.UBIlist == ("uniq", eq[0][0]) \
+                and all(T(eq[0][0][k][i, j]).eq(z3.Real("ubi%d_%d%d" % (k + 1, i, j))) for k in range(len(calls)) for i in range(3) for j in range(3))
+            goals.append(("W every oriented candidate and its inverse reach ubi_equiv (same order), UBIlist = its result", z3.BoolVal(bool(wired))))
+            inputs = {"c%d" % i: c[i] for i in range(n)}; inputs["cos"] = cos
+            if crange_sym: inputs["crange"] = cr
+            return dict(goals=goals, inputs=inputs)
+        return run
+    def mk_equiv(n, rmode):
+        """the real ubi_equiv on n arbitrary matrices (products abstracted by the uninterpreted commutative umul; np.linalg.inv(ubi_i) = the given UB_i)"""
+        def run():
+            pysym.MULMODE[0] = "uf"; symcore.RNE_MODE[0] = rmode
+            try:
+                ubis = [pysym.mat("u%d_" % i) for i in range(n)]; ubs = [pysym.mat("b%d_" % i) for i in range(n)]
+                class LA:
+                    def __getattr__(s, k): return getattr(np.linalg, k)
+                    def inv(s, m):
+                        for i, u in enumerate(ubis):
+                            if m is u: return ubs[i]
+                        raise RuntimeError("inv of a matrix that is not one of the candidates")
+                class NP2(pysym.NPProxy): linalg = LA()
+                with symbolize(UC, extra=[(UC, "np", NP2())]):
+                    out = UC.ubi_equiv(list(ubis), list(ubs))
+                idx = []
+                for o in out:
+                    hit = [i for i, u in enumerate(ubis) if o is u]; idx.append(hit[0] if hit else None)
+                tr = [T(u[0, 0] + u[1, 1] + u[2, 2]) for u in ubis]; tol = z3.RealVal(Fraction(1e-8))
+                def score(i, j):
+                    hc = np.dot(ubis[i], np.dot(ubs[j], UC.HKL0)); d = pysym.NP.round(hc) - hc; return T(sum(abs(x) for x in np.asarray(d, dtype=object).ravel()))
+                goals = [("E output members are distinct input candidates", z3.BoolVal(None not in idx and len(set(idx)) == len(idx) and len(idx) >= min(n, 1)))]
+                if None not in idx and idx:
+                    for i in range(n): goals.append(("E the first kept candidate has the largest trace (vs %d)" % i, tr[idx[0]] >= tr[i]))
+                    for i in range(n):
+                        if i in idx: continue
+                        goals.append(("E dropped candidate %d is equivalent (all HKL0 reflections integer within tol) to a kept one" % i, z3.Or([score(i, j) <= tol for j in idx])))
+                    for a in range(len(idx)):
+                        for b in range(a + 1, len(idx)): goals.append(("E kept candidates %d, %d are not equivalent" % (idx[a], idx[b]), score(idx[b], idx[a]) > tol))
+                return dict(goals=goals, inputs={})
+            finally:
+                pysym.MULMODE[0] = "nra"; symcore.RNE_MODE[0] = "toint"
+        return run
+    kf = lambda n, l: "unitcell.py:orient/ubi_equiv:" + l.split("(")[0].split("[")[0].strip()[:50]
+    for n in ((1, 2, 3) if not thorough else (1, 2, 3, 4)):
+        jobs.append(("orient-select n=%d nearest" % n, mk_orient(n, False), dict(replay=replay_orient, timeout_ms=tmo, keyfn=kf)))
+    for n in ((1, 2) if not thorough else (1, 2, 3)):
+        jobs.append(("orient-select n=%d crange" % n, mk_orient(n, True), dict(replay=replay_orient, timeout_ms=tmo, keyfn=kf)))
+    for n, rmode in (((1, "toint"), (2, "toint")) if not thorough else ((1, "toint"), (2, "toint"), (3, "fresh"))):
+        jobs.append(("ubi_equiv n=%d (%s rounding)" % (n, rmode), mk_equiv(n, rmode), dict(replay=replay_equiv, timeout_ms=tmo, keyfn=kf)))
     harness.run_parallel(ck, jobs)
     # the end-to-end statements as stretch obligations (monolithic)
     if thorough:
@@ -197,6 +298,85 @@ def concrete_orient(h1, h2):
             if np.linalg.det(ubi) <= 0: return True, "left-handed UBI for hkl %s,%s cell %s" % (h1, h2, cell)
             if not np.allclose(ubi, np.linalg.inv(U @ B), atol=1e-8): return True, "UBI is not the generating orientation for hkl %s,%s cell %s" % (h1, h2, cell)
     return False, "real code recovers the generating orientation on the confirmation family"
+
+def _equiv_spec(ubis, out, tol=1e-8):
+    """the specification of ubi_equiv evaluated concretely: out is a sub-list of ubis, every dropped candidate is equivalent to a kept one, kept ones pairwise inequivalent"""
+    import ImageD11.unitcell as UC
+    def eqv(a, b):
+        h = np.dot(a, np.dot(np.linalg.inv(b), UC.HKL0)); return np.abs(np.round(h) - h).sum() <= max(tol, 1e-6)
+    ids = [[k for k, u in enumerate(ubis) if o is u or np.array_equal(o, u)] for o in out]
+    if any(not i for i in ids): return "an output matrix is not one of the candidates"
+    for k, u in enumerate(ubis):
+        if not any(eqv(u, o) for o in out): return "candidate %d (trace %.4f) is not equivalent to any kept orientation (%d kept of %d)" % (k, np.trace(u), len(out), len(ubis))
+    for a in range(len(out)):
+        for b in range(a + 1, len(out)):
+            if eqv(out[a], out[b]): return "kept orientations %d and %d are equivalent" % (a, b)
+    return None
+def replay_equiv(vals, label):
+    import itertools, ImageD11.unitcell as UC
+    from scipy.spatial.transform import Rotation
+    rng = np.random.RandomState(5); B = np.eye(3) / 4.0
+    for trial in range(6):
+        U0 = Rotation.random(random_state=rng).as_matrix(); U1 = Rotation.random(random_state=rng).as_matrix()
+        R90 = np.array([[0., -1, 0], [1, 0, 0], [0, 0, 1]]); R3 = np.array([[0., 0, 1], [1, 0, 0], [0, 1, 0]])
+        base = [np.linalg.inv(U0 @ B), R90 @ np.linalg.inv(U0 @ B), np.linalg.inv(U1 @ B), R3 @ np.linalg.inv(U1 @ B)]
+        for r in (1, 2, 3, 4):
+            for sel in itertools.permutations(range(4), r):
+                ubis = [base[i].copy() for i in sel]; out = UC.ubi_equiv(list(ubis), [np.linalg.inv(u) for u in ubis])
+                bad = _equiv_spec(ubis, out)
+                if bad: return True, "ubi_equiv on %d cubic candidates (two orientations and symmetry copies, order %s): %s" % (r, sel, bad)
+    return False, "ubi_equiv meets its specification on the confirmation family"
+def replay_orient(vals, label):
+    """real unitcell.orient (compiled quickorient from the repository build) on ideal g-vector pairs of random orientations: the generating orientation must be (equivalent to) a returned candidate"""
+    import ImageD11.unitcell as UC, math
+    from scipy.spatial.transform import Rotation
+    # (1) the solver's own cosine table and observed cosine, driven through the real orient with a recording wrapper around the real quickorient
+    cs = [vals.get("c%d" % i) for i in range(8) if vals.get("c%d" % i) is not None]; cos = vals.get("cos"); cr = vals.get("crange")
+    tables = [(cs, cos, cr)] if cs and cos is not None and abs(cos) <= 1 else []
+    tables += [([-0.5, 0.0, 0.5], 0.25, None), ([-0.5, 0.0, 0.5], -0.25, None), ([-0.5, 0.0, 0.5], 0.3, None), ([-0.5, 0.0, 0.5], 0.2, None), ([-0.5, 0.1, 0.5], 0.8, None), ([-0.5, 0.1, 0.5], -0.9, None),
+               ([0.0, 0.5], 0.25, 0.3), ([0.0, 0.5], 0.25, 0.2), ([-0.2, 0.2], 0.0, 0.25), ([0.1], 0.3, None), ([0.1], 0.3, 0.1)]
+    real = UC.cImageD11
+    for cs, cos, cr in tables:
+        uc = UC.unitcell([4., 4., 4., 90, 90, 90], "P"); BTs = [UC.BTmat(np.array([1., 0, 0]), np.array([0., 1, k]), uc.B, np.linalg.inv(uc.B)) for k in range(len(cs))]
+        uc.getanglehkls = lambda r1, r2: ([((1, 0, 0), (0, 1, k)) for k in range(len(cs))], np.array(cs, float), BTs)
+        used = []
+        class Rec:
+            def __getattr__(s, k): return getattr(real, k)
+            def quickorient(s, UBI, BT):
+                used.append([k for k, b in enumerate(BTs) if b is BT or np.array_equal(b, BT)]); return real.quickorient(UBI, BT)
+        g1 = np.array([0.25, 0, 0]); g2 = 0.3 * np.array([cos, math.sqrt(max(0.0, 1 - cos * cos)), 0.0])
+        with pysym.patched((UC, "cImageD11", Rec())):
+            uc.orient(0, g1, 1, g2, crange=(cr if cr is not None else -1.))
+        tried = [u[0] for u in used if u]; d = [abs(c - cos) for c in cs]
+        if cr is None:
+            if len(tried) != 1 or d[tried[0]] > min(d) + 1e-12:
+                return True, "orient(crange<0) with cosine table %s and observed cosine %r tries candidate(s) %s; the nearest is %d" % (cs, cos, tried, int(np.argmin(d)))
+        else:
+            want = [k for k in range(len(cs)) if d[k] < cr]; edge = any(abs(d[k] - cr) < 1e-12 for k in range(len(cs)))
+            if tried != want and not edge:
+                return True, "orient(crange=%r) with cosine table %s and observed cosine %r tries candidates %s, expected %s" % (cr, cs, cos, tried, want)
+    # (2) ideal pairs of random orientations on real cells
+    rng = np.random.RandomState(11)
+    for cell, sym in (([4.1, 4.1, 4.1, 90, 90, 90], "F"), ([3, 3, 5, 90, 90, 90], "P"), ([4, 4, 6, 90, 90, 120], "P")):
+        uc = UC.unitcell(cell, sym); uc.makerings(1.4)
+        nr = min(5, len(uc.ringds))
+        for trial in range(8):
+            U = Rotation.random(random_state=rng).as_matrix(); UB = U @ uc.B; r1, r2 = rng.choice(nr, 2, replace=False)
+            H1 = uc.ringhkls[uc.ringds[r1]]; H2 = uc.ringhkls[uc.ringds[r2]]
+            h1 = np.array(H1[rng.randint(len(H1))], float); cands = [h for h in H2 if abs(abs(np.dot(uc.B @ h1, uc.B @ np.array(h, float))) / np.linalg.norm(uc.B @ h1) / np.linalg.norm(uc.B @ np.array(h, float))) < 0.95]
+            if not cands: continue
+            h2 = np.array(cands[rng.randint(len(cands))], float); g1 = UB @ h1; g2 = UB @ h2
+            for crange in (-1., 0.01):
+                uc.orient(r1, g1, r2, g2, crange=crange); lst = list(uc.UBIlist)
+                if not lst: return True, "orient(ring %d, ring %d, crange=%g) on an ideal pair of cell %s returned no candidate" % (r1, r2, crange, cell)
+                good = []
+                for ubi in lst:
+                    m = ubi @ UB; good.append(bool(np.abs(m - np.round(m)).max() < 1e-6 and abs(abs(np.linalg.det(m)) - 1) < 1e-6))
+                if crange > 0 and not any(good):
+                    return True, "orient(ring %d, ring %d, crange=%g), cell %s %s, hkls %s %s: none of the %d candidates is the generating orientation (up to lattice symmetry)" % (r1, r2, crange, cell, sym, h1.tolist(), h2.tolist(), len(lst))
+                bad = _equiv_spec(lst, lst)
+                if bad and len(lst) > 1: return True, "orient(crange=%g) cell %s: %s" % (crange, cell, bad)
+    return False, "orient returns the generating orientation on the confirmation family"
 
 if __name__ == "__main__":
     common.run_main(main)
